@@ -25,7 +25,7 @@ TITLE = 'tal:repeat and repeat variables'
 LEVEL = 'exploration'
 SHARDS = {'quick': 16, 'thorough': 16}
 FLOOR = {'quick': 5000, 'thorough': 30000}
-REQUIRED_MONITORS = {'positions-compared': 5000, 'M-repeat': 10000, 'nests-compared': 500, 'separators-compared': 200, 'overlapping-renders-compared': 300, 'self-referencing-iterables-compared': 300}
+REQUIRED_MONITORS = {'positions-compared': 5000, 'M-repeat': 10000, 'nests-compared': 500, 'separators-compared': 200, 'overlapping-renders-compared': 300, 'self-referencing-iterables-compared': 300, 'variable-names-compared': 400}
 RULE = ('(a) every (length, position) with length 0..60 (quick) / 0..150 (thorough) plus lengths 701,702,703,3998..4001 and '
         '18278,18279 x iterable kinds {list, tuple, range, generator, dict items view, str, one-shot iterator}: distinct by '
         '(kind, length, position), non-trivial iff length >= 1; (c) generated loop nests: distinct by (iterable kinds, '
@@ -567,6 +567,35 @@ def layer_self_reference(ctx, n):
                           'template %r with %r\n  rendered %r\n  expected %r' % (src, kw, got, want), {'kind': 'selfref', 'src': src})
 
 
+# --------------------------------------------------------------------------
+# (g) loop variables named like methods / attributes of the objects involved (dict, list, the repeat item itself)
+def layer_variable_names(ctx, n):
+    from chameleon import PageTemplate
+    rng = ctx.rng
+    NAMES_ = ['items', 'values', 'keys', 'get', 'copy', 'update', 'pop', 'clear', 'setdefault', 'index', 'count', 'length', 'number',
+              'start', 'end', 'even', 'letter', 'name', 'repeat_', 'i', 'item', 'it', 'line', 'link', 'e', 'n']
+    for _ in range(n):
+        a, b = rng.sample(NAMES_, 2)
+        na, nb = rng.randint(1, 3), rng.randint(0, 3)
+        src = ('<r><tal:a repeat="%(a)s xs">[${%(a)s} ${repeat.%(a)s.index}/${repeat[\'%(a)s\'].number}/${repeat.%(a)s.length}'
+               '<tal:b repeat="%(b)s ys">(${%(b)s} ${repeat.%(b)s.index}/${repeat.%(b)s.end} ${repeat.%(a)s.number})</tal:b>'
+               ' ${repeat.%(a)s.index}/${repeat.%(a)s.end}]</tal:a></r>') % {'a': a, 'b': b}
+        xs = ['x%d' % i for i in range(na)]
+        ys = ['y%d' % i for i in range(nb)]
+        want = '<r>' + ''.join(
+            '[%s %d/%d/%d' % (x, i, i + 1, na) + ''.join('(%s %d/%d %d)' % (y, j, int(j == nb - 1), i + 1) for j, y in enumerate(ys)) +
+            ' %d/%d]' % (i, int(i == na - 1)) for i, x in enumerate(xs)) + '</r>'
+        try:
+            got = PageTemplate(src)(xs=xs, ys=ys)
+        except Exception as e:
+            got = 'RAISED %s: %s' % (type(e).__name__, str(e).split('\n')[0][:100])
+        ctx.mon('variable-names-compared')
+        ctx.case(key=('names', a, b, na, min(nb, 2)), nontrivial=True)
+        if got != want:
+            ctx.violation('loop-variable-name-disturbs-repeat', 'template %r with %d x %d items\n  rendered %r\n  expected %r' % (src, na, nb, got, want),
+                          {'kind': 'selfref', 'src': src})
+
+
 def run(ctx):
     monitors.install(ctx, tokalg=False)
     install_repeat_contract(ctx)
@@ -575,6 +604,7 @@ def run(ctx):
     layer_separator(ctx, 60 if ctx.quick else 1500)
     layer_reentrant(ctx, 40 if ctx.quick else 600)
     layer_self_reference(ctx, 30 if ctx.quick else 500)
+    layer_variable_names(ctx, 40 if ctx.quick else 600)
 
 
 def replay(data):
